@@ -44,6 +44,12 @@ class DefinesParser(Parser):
         self.rePI = re.compile(r"#(?P<val>\w+[ \t]+[^\n]+)", re.M)
         Parser.__init__(self)
 
+    def walk(self, only_localizable=False):
+        if self.ctx is not None:
+            # "#filter emptyLines" is state of one pass over the file
+            self.ctx.filter_empty_lines = False
+        yield from super().walk(only_localizable=only_localizable)
+
     def getNext(self, ctx, offset):
         junk_offset = offset
         contents = ctx.contents
